@@ -2,3 +2,4 @@ pub mod drive;
 pub mod expect;
 pub mod gen;
 pub mod types;
+pub mod refenc;
